@@ -2362,12 +2362,11 @@ theorem session_routing_info_spec (p : PreparedM) (values : List PartitionKey.Ra
     rw [hri]
   · exact int64_toInt_range _
 
-/-- **The two copies of the `RoutingInfo` literal agree**: the one `Session::execute` builds (session.rs:1809-1816) and
-the one `execute_iter`'s pager builds for its page requests (pager.rs:949-966) are the same function of the prepared
-statement, the bound values and the execution parameters - so every statement about `sessionRoutingInfo` (in particular
-`session_first_attempt_owns_token`) holds for the first page request of `execute_iter` too. (Both are transcriptions;
-their tie to the code is the `e2e route` cases with `api=u` / `api=i`, which run the real Session.) -/
-theorem pager_routing_info_eq (p : PreparedM) (values : List PartitionKey.RawValue) (ex : ExecM) :
+-- The pager's copy of the `RoutingInfo` literal (`pagerRoutingInfo`, written out a second time in the model as the code
+-- writes it out three times: session.rs:1809, pager.rs:961, pager.rs:1042) is DEFINITIONALLY `sessionRoutingInfo`: not a
+-- property theorem, and no statement about `/repo` - the three literals are tied to the code by the `e2e route` cases
+-- (api=u, api=i first page, pages=2 second page after a failed coordinator).
+example (p : PreparedM) (values : List PartitionKey.RawValue) (ex : ExecM) :
     pagerRoutingInfo p values ex = sessionRoutingInfo p values ex := by
   unfold pagerRoutingInfo sessionRoutingInfo
   cases PartitionKey.boundCalculateToken p.cdc p.pk values <;> rfl
@@ -2415,6 +2414,59 @@ theorem session_first_attempt_owns_token (rc : RCluster) (cfg : Config) (p : Pre
   simp only [] at key
   rw [hf]
   exact key
+
+open ScyllaVerif.Props.C05 in
+/-- **Batches** (`Session::batch`, the fourth token-carrying `RoutingInfo` literal): a batch whose FIRST statement is
+prepared (`p`) and whose first row of values binds all of its key components is routed exactly as
+`Session::execute(p, that row)` with the LWT flag cleared - whatever the other statements and rows are: the first
+attempt goes to a live replica of the servers' token of the FIRST statement's key, with ScyllaDB's shard of that token
+on that node, on a connection the server bound to that shard whenever the pool holds one (ring tables; hypotheses as
+in `session_first_attempt_owns_token`, the request being the one with `confirmedLwt = false`). -/
+theorem batch_first_attempt_owns_token (rc : RCluster) (cfg : Config) (p : PreparedM) (rest : List BatchStmtM)
+    (values : List PartitionKey.RawValue) (ex : ExecM) (ρp : RhoPick) (ρf : RhoFb) (draw : Nat)
+    (wire : List Nat) (comps : List (List UInt8)) (hpk : p.pk = PartitionKey.pkIndexesOfWire wire)
+    (hne : wire ≠ []) (hnd : wire.Nodup) (hlt : ∀ ix ∈ wire, ix < values.length) (hv : values.length ≤ 65535)
+    (hbound : C03.keyOf wire values = comps.map some) (hsmall : 2 ≤ comps.length → ∀ c ∈ comps, c.length ≤ 65535)
+    (r : RRequest)
+    (hr : r = ⟨⟨ex.consistency, some (serverToken p.cdc comps), p.table.map (·.1), false, ex.pref⟩,
+      (p.table.map (·.2)).getD 0⟩)
+    (hwf : WF (rc.toCluster r.rq.token)) (haware : tokenAware (rc.toCluster r.rq.token) cfg r.rq = true)
+    (hring : tabletsOf rc r = none)
+    (pools : Nat → Refiller)
+    (hreach : ∀ id, ∃ size evts, (∀ c q, PoolEvt.ready c q ∈ evts → NrU16 c) ∧ (Refiller.init size).run evts = some (pools id))
+    (hnode : ∀ id, rc.sharder id = nodeSharder (pools id).shared) :
+    let tok := serverToken p.cdc comps
+    let first := batchFirstAttempt rc cfg (.prepared p :: rest) (some values) ex ρp ρf draw
+    let owned := fun (a : Attempt) =>
+      ∀ s, rc.sharder a.node.id = some s → s.msb.toNat < 64 →
+        a.shard = Sharding.shardOfSpec s.nr s.msb.toNat tok ∧
+        ∃ b, (pools a.node.id).shared = some (.sharded s b) ∧ ∀ ρ : PoolRho,
+          ∃ c, connectionForShard (.sharded s b) a.shard ρ = some c ∧
+            (∀ bucket, b[a.shard]? = some bucket → bucket ≠ [] → shardIdOf c = a.shard)
+    (∀ d, (preference cfg r.rq).datacenter = some d → liveReplicaTargets rc cfg r (.dc d) ≠ [] →
+      ∃ a, first = some a ∧ (a.node, some a.shard) ∈ liveReplicaTargets rc cfg r (.dc d) ∧ owned a) ∧
+    (((preference cfg r.rq).datacenter = none ∨ cfg.failover = true) → liveReplicaTargets rc cfg r .any ≠ [] →
+      ∃ a, first = some a ∧ owned a ∧
+        ((a.node, some a.shard) ∈ liveReplicaTargets rc cfg r .any ∨
+          ∃ d, (preference cfg r.rq).datacenter = some d ∧ (a.node, some a.shard) ∈ liveReplicaTargets rc cfg r (.dc d))) := by
+  intro tok first owned
+  have hf : first = sessionFirstAttempt rc cfg { p with lwt := false } values ex ρp ρf draw := by
+    show batchFirstAttempt rc cfg (.prepared p :: rest) (some values) ex ρp ρf draw = _
+    unfold batchFirstAttempt sessionFirstAttempt batchRoutingInfo sessionRoutingInfo
+    simp only [List.head?_cons]
+  rw [hf]
+  exact session_first_attempt_owns_token rc cfg { p with lwt := false } values ex ρp ρf draw wire comps hpk hne hnd
+    hlt hv hbound hsmall r hr hwf haware hring pools hreach hnode
+
+-- a batch whose first statement is NOT prepared, an empty batch, a batch without a first row of values: no token, and
+-- (unprepared / empty) no table - the request is not token-aware, any node may get it (definitional; driven by the
+-- `e2e route ... api=b bfirst=u` cases, which only demand that the BATCH frames arrive)
+example (rest : List BatchStmtM) (vs : Option (List PartitionKey.RawValue)) (ex : ExecM) :
+    batchRoutingInfo (.unprepared :: rest) vs ex = .ok ⟨⟨ex.consistency, none, none, false, ex.pref⟩, 0⟩ := rfl
+example (vs : Option (List PartitionKey.RawValue)) (ex : ExecM) :
+    batchRoutingInfo [] vs ex = .ok ⟨⟨ex.consistency, none, none, false, ex.pref⟩, 0⟩ := rfl
+example (p : PreparedM) (rest : List BatchStmtM) (ex : ExecM) :
+    (batchRoutingInfo (.prepared p :: rest) none ex).toOption.map (·.rq.token) = some none := rfl
 
 -- non-vacuity of `route_first_attempt_owns_token`: in `exRC` node 3 has 4 shards (msb 0), the others none. A refiller of
 -- node 3 that saw two connections (shards 2 and 0 of 4) publishes a pool whose sharder is the node's; an untouched
